@@ -1,1 +1,21 @@
-(* C06: under construction *)
+(* C06, decode side: totality statements (never fuel exhaustion, i.e. termination within the stated number of
+   steps, with a result) for the machine-translated recogniser and the hand-written Tokenizer / Decoder models.
+   They are corollaries of what C05, C17 and C11 prove. Definitions only. *)
+From Verif Require Import Base.GoInt Json.Ext Generated.JsonParseGen Json.Grammar Json.Spec Json.StreamModel Json.StateSpec.
+Open Scope Z_scope.
+
+(* json.Valid returns on EVERY byte string *)
+Definition valid_total_statement : Prop :=
+  forall b, wfb b = true -> len b < 2 ^ 62 -> exists r, json_Valid (2 * length b + 8) b = Some r.
+(* parseValue -- the scanner behind Unmarshal, Parse, RawMessage, skipped members, MarshalJSON output checks and the
+   Decoder framing -- returns on EVERY byte string, for every sound flags word: a value and a remainder, or an error *)
+Definition parse_value_total_statement : Prop :=
+  forall b d, wfb b = true -> len b < 2 ^ 62 -> flags_sound d b ->
+    exists v r k e, json_decoder_parseValue (2 * length b + 4) d b = Some (v, r, k, e).
+(* Tokenizer: iterating Next over EVERY byte string ends *)
+Definition tokenizer_total_statement : Prop :=
+  forall b, wfb b = true -> len b < 2 ^ 62 -> exists ks st, tokenize b = Some (ks, st).
+(* Decoder: EVERY reader script ending with io.EOF is decoded to the end: never fuel exhaustion *)
+Definition decoder_total_statement : Prop :=
+  forall s, wfb (script_data s) = true -> len (script_data s) < 2 ^ 30 -> script_clean s ->
+    snd (fst (all_values s REOF)) <> DOutOfFuel.
